@@ -17,7 +17,8 @@
     `peak_partition_old_rule_fails` : what the rules before the repairs did on the witnesses;
     `narrow_witness_run`, `staging_witness_run` : the repaired rule on the same inputs.
   * `peak_chunk_value_is_binary32`  : the chunk holds a binary32: a DOUBLE maximum re-opens as its rounding (format limit).
-  * `chunk_roundtrip_wav`, `chunk_roundtrip_aiff`, `chunk_roundtrip_caf` : chunk bytes parse back to (binary32 value, position).
+  * `chunk_roundtrip_wav`, `chunk_roundtrip_aiff` : chunk bytes parse back to (binary32 value, 32-bit position) for every PEAK list;
+    CAF (64-bit positions): concrete instance only.
   CALC
   * `calc_scan_is_max`, `calc_scan_buffering`, `calc_scan_all_is_max` : the scans return the maximum magnitude (per channel).
   * `calc_restores_state`           : SFC_CALC_* on a read-only handle leave read position, conversion settings and bytes alone.
@@ -25,6 +26,7 @@
 -/
 import SfProofs.Peak
 import SfProofs.PeakCalc
+import SfProofs.PeakChunk
 namespace Sf.C18
 open Sf Sf.Float Sf.Peak
 
@@ -199,6 +201,34 @@ theorem peak_chunk_value_is_binary32 :
     parseChunk .wavLE 1 (chunkBytes .wavLE 1 [{ value := wa.toNat, position := 0 }]) =
       some [{ value := 0x3FF0000000000000, position := 0 }] := by decide +kernel
 
+/-! ## the chunk parses back -/
+
+/-- WAV / WAVEX / RF64 (little-endian) and RIFX (big-endian): for every PEAK list of the right length the chunk written by
+    `chunkBytes` is accepted by `parseChunk` and yields, per channel, the binary32 the writer stored (widened) and the
+    low 32 bits of the position -/
+theorem chunk_roundtrip_wav (big : Bool) (ch : Nat) (ps : List Peak) (hl : ps.length = ch) (hch : ch ≤ 1024) :
+    parseChunk (if big then .wavBE else .wavLE) ch (chunkBytes (if big then .wavBE else .wavLE) ch ps) = some (ps.map held32) := by
+  obtain ⟨h1, h2⟩ := chunk_parse_32 big ch ps hl hch
+  cases big
+  · have h1' : rd32 false (chunkBytes .wavLE ch ps) 4 = 8 + 8 * ch := h1
+    have h2' : parsePeaks false (chunkBytes .wavLE ch ps) 16 ch = ps.map held32 := h2
+    simp only [Bool.false_eq_true, if_false, parseChunk, h1', h2', bne_self_eq_false]
+  · have h1' : rd32 true (chunkBytes .wavBE ch ps) 4 = 8 + 8 * ch := h1
+    have h2' : parsePeaks true (chunkBytes .wavBE ch ps) 16 ch = ps.map held32 := h2
+    simp only [if_true, parseChunk, h1', h2', bne_self_eq_false, Bool.false_eq_true, if_false]
+
+/-- AIFF: the same layout, big-endian -/
+theorem chunk_roundtrip_aiff (ch : Nat) (ps : List Peak) (hl : ps.length = ch) (hch : ch ≤ 1024) :
+    parseChunk .aiff ch (chunkBytes .aiff ch ps) = some (ps.map held32) := by
+  obtain ⟨h1, h2⟩ := chunk_parse_32 true ch ps hl hch
+  have h1' : rd32 true (chunkBytes .aiff ch ps) 4 = 8 + 8 * ch := h1
+  have h2' : parsePeaks true (chunkBytes .aiff ch ps) 16 ch = ps.map held32 := h2
+  simp only [parseChunk, h1', h2', bne_self_eq_false, Bool.false_eq_true, if_false]
+
+/-- CAF ('peak', 64-bit size and positions): a concrete instance -/
+example : parseChunk .caf 2 (chunkBytes .caf 2 [{ value := 0x3FF0000000000000, position := 7 }, { value := 0x4000000000000000, position := 4294967301 }]) =
+    some [{ value := 0x3FF0000000000000, position := 7 }, { value := 0x4000000000000000, position := 4294967301 }] := by decide +kernel
+
 /-! ## CALC -/
 
 /-- SFC_CALC_SIGNAL_MAX: for ANY sequence of buffers the read loop delivers, the result `r` of the scan satisfies
@@ -248,5 +278,39 @@ theorem calc_restores_state_witness :
         decide (r.1.rpos = 2 ∧ r.1.conv.normD = false ∧ r.1.conv.normF = true ∧ r.2.1.bytes = cS.bytes ∧
                 r.2.2.all.1 = [0x3F24000000000000, 0x3F28000000000000] ∧ r.2.2.sig = 0x3F28000000000000)
      | _ => false) = true := by decide +kernel
+
+
+/-- SFC_CALC_MAX_ALL_CHANNELS: for ANY sequence of buffers, entry `c` of the result dominates the magnitude of every sample
+    the scan credits to channel `c` — the samples at offsets `i` with `i % channels = c` of the stream — and is one of them
+    (or 0): the true per-channel maximum. -/
+theorem calc_scan_all_is_max (ch : Nat) (hch : 0 < ch) (bufs : List (List Nat)) (c : Nat) (hc : c < ch) :
+    let r := ((bufs.foldl (foldMaxAll ch) (List.replicate ch 0, 0)).1).getD c 0
+    (∀ i, ∀ h : i < bufs.flatten.length, i % ch = c → V64 (absD bufs.flatten[i]) ≤ V64 r) ∧
+    (r = 0 ∨ ∃ i, ∃ h : i < bufs.flatten.length, i % ch = c ∧ r = absD bufs.flatten[i]) := by
+  intro r
+  have hr : r = foldMax 0 (chanSub ch c 0 bufs.flatten) := by
+    show ((bufs.foldl (foldMaxAll ch) (List.replicate ch 0, 0)).1).getD c 0 = _
+    rw [foldMaxAll_flatten, (foldMaxAll_spec ch c hch bufs.flatten (List.replicate ch 0) 0 (by simp) hch).1]
+    simp [List.getD, hc]
+  obtain ⟨_, h2, h3⟩ := foldMax_spec (chanSub ch c 0 bufs.flatten) 0
+  rw [← hr] at h2 h3
+  constructor
+  · intro i hi hm
+    apply h2
+    exact (mem_chanSub ch c hch hc bufs.flatten 0 hch _).mpr ⟨i, hi, rfl, by simpa using hm⟩
+  · rcases h3 with h | ⟨x, hx, h⟩
+    · exact Or.inl h
+    · obtain ⟨i, hi, hxi, hm⟩ := (mem_chanSub ch c hch hc bufs.flatten 0 hch x).mp hx
+      exact Or.inr ⟨i, hi, by simpa using hm, by rw [h, hxi]⟩
+
+/-- **SFC_CALC_SIGNAL_MAX, SFC_CALC_NORM_SIGNAL_MAX, SFC_CALC_MAX_ALL_CHANNELS and SFC_CALC_NORM_MAX_ALL_CHANNELS on a
+    read-only handle leave the read position, every conversion setting (norm_double, norm_float, clipping, scale flags),
+    the frame count and the file bytes as they were, and report no error** — for every handle state satisfying the
+    handle invariant (any position 0 … frames, any flags), RAW / AU / WAV sample-granular encodings. -/
+theorem calc_restores_state (h : H) (s : Store) (normalize : Bool) (hi : HInv h s) (hm : h.mode = .r) :
+    (stepCalc h s normalize).1.rpos = h.rpos ∧ (stepCalc h s normalize).1.conv = h.conv ∧
+    (stepCalc h s normalize).2.1.bytes = s.bytes ∧ (stepCalc h s normalize).1.frames = h.frames ∧
+    (stepCalc h s normalize).1.error = 0 :=
+  stepCalc_restores_r h s normalize hi hm
 
 end Sf.C18
